@@ -37,6 +37,7 @@ func c20(c *Ctx) {
 	c20coverage(c)
 	c20crash(c)
 	c20nil(c)
+	c20fields(c)
 }
 
 // nodeish: *TokenNode, a type with a Format method from package ast, an interface of package ast, or a slice of those.
@@ -517,4 +518,72 @@ func c20nil(c *Ctx) {
 	}
 	c.R.Extra["C20.R4_parse_functions"] = n
 	c.R.Min(rule, 20, "parse* methods of *Parser returning a node or a list")
+}
+
+// c20fields: every child field of an ast node that Format can print is filled somewhere by the parser.
+func c20fields(c *Ctx) {
+	rule := "C20.R3"
+	pk := c.P.Pkg(goctlAst)
+	if pk == nil {
+		return
+	}
+	assigned := map[string]int{}
+	for _, f := range c.P.AllFuncs(goctlParser) {
+		for _, b := range f.Blocks {
+			for _, ins := range b.Instrs {
+				if st, ok := ins.(*ssa.Store); ok {
+					if fa, ok := st.Addr.(*ssa.FieldAddr); ok {
+						if cst, isC := st.Val.(*ssa.Const); isC && cst.Value == nil {
+							continue // explicit nil
+						}
+						assigned[namedStructOf(fa.X.Type())+"."+fieldNameOf(fa)]++
+					}
+				}
+			}
+		}
+	}
+	names := pk.Types.Scope().Names()
+	sort.Strings(names)
+	var missing []string
+	total := 0
+	// fields the parser legitimately never sets (none known today); each would need a reason here
+	exempt := map[string]string{}
+	for _, name := range names {
+		tn, ok := pk.Types.Scope().Lookup(name).(*types.TypeName)
+		if !ok {
+			continue
+		}
+		named, ok := tn.Type().(*types.Named)
+		if !ok {
+			continue
+		}
+		st, ok := named.Underlying().(*types.Struct)
+		if !ok || name == "TokenNode" || name == "AST" {
+			continue
+		}
+		hasFormat := false
+		for i := 0; i < named.NumMethods(); i++ {
+			if named.Method(i).Name() == "Format" {
+				hasFormat = true
+			}
+		}
+		if !hasFormat {
+			continue
+		}
+		for i := 0; i < st.NumFields(); i++ {
+			if !c20nodeish(st.Field(i).Type(), pk.Types) {
+				continue
+			}
+			key := name + "." + st.Field(i).Name()
+			total++
+			if assigned[key] == 0 {
+				if _, ok := exempt[key]; !ok {
+					missing = append(missing, key)
+				}
+			}
+		}
+	}
+	o := c.R.Check(len(missing) == 0 && total >= 60, rule, goctlParser+"⇄"+goctlAst, "every child field an ast node's Format can print is assigned by the parser somewhere (a field the parser stops filling silently disappears from the formatted text)", "-",
+		fmt.Sprintf("never assigned in package parser: %v (%d child fields in total)", missing, total), missing, total)
+	o.Sites = total
 }
